@@ -175,6 +175,8 @@ class Gen:
             return self.array_probe(ctx, ty, d)
         if r.random() < 0.07:
             return self.pass_trigger(ctx, ty, d)
+        if ty == "u32" and r.random() < 0.10:
+            return self.span_probe(ctx)
         c = r.random()
         if c < 0.12 and vs:
             return {"k": "var", "n": r.choice(vs)[0]}
@@ -312,6 +314,37 @@ class Gen:
                 return {"k": "block", "ss": [{"k": "letstruct", "name": st["name"], "ns": ns, "e": self.expr(ctx, st, d - 1)}],
                         "tail": {"k": "field", "i": r.choice(idx) + 1, "e": rebuilt}}
         return self.int_expr(ctx, ty, d - 1)
+
+    def span_probe(self, ctx):
+        """A buffer padded with the same run-time value many times; spans are taken before and after the last append
+        and both are observed (u32 result)."""
+        import copy
+        r = self.r
+        ety = r.choice(["u8", "u16", "u32", "felt", "u64"])
+        et = T(ety)
+        a = self.fresh(ctx)
+        vs = self.vars_of(ctx, et)
+        pad = {"k": "var", "n": r.choice(vs)[0]} if vs else self.lit(ety)
+        ss = [{"k": "let", "n": a, "mut": True, "ty": {"k": "array", "t": et}, "e": {"k": "arr", "ety": et, "es": []}}]
+        n_app = r.choice([6, 7, 7, 8, 8, 9, 10])
+        for _ in range(n_app - 1):
+            ss.append({"k": "expr", "e": {"k": "append", "a": a, "e": copy.deepcopy(pad)}})
+        s1 = self.fresh(ctx)
+        ss.append({"k": "let", "n": s1, "mut": False, "ty": {"k": "span", "t": et}, "e": {"k": "aspan", "a": a}})
+        ss.append({"k": "expr", "e": {"k": "append", "a": a, "e": copy.deepcopy(pad)}})
+        s2 = self.fresh(ctx)
+        ss.append({"k": "let", "n": s2, "mut": False, "ty": {"k": "span", "t": et}, "e": {"k": "aspan", "a": a}})
+        lens = {"k": "bin", "op": "add", "ty": "u32",
+                "l": {"k": "bin", "op": "mul", "ty": "u32", "l": {"k": "slen", "s": s1}, "r": {"k": "lit", "v": 100, "ty": "u32"}},
+                "r": {"k": "slen", "s": s2}}
+        if ety == "u32" and r.random() < 0.5:
+            obs = {"k": "bin", "op": "add", "ty": "u32", "l": {"k": "sat", "s": s2, "i": {"k": "lit", "v": n_app - 1, "ty": "u32"}}, "r": lens}
+        else:
+            # reading the last element of the later span must not panic
+            n = self.fresh(ctx)
+            ss.append({"k": "let", "n": n, "mut": False, "ty": et, "e": {"k": "sat", "s": s2, "i": {"k": "lit", "v": n_app - 1, "ty": "u32"}}})
+            obs = lens
+        return {"k": "block", "ss": ss, "tail": obs}
 
     def array_probe(self, ctx, ty, d):
         """A block that builds a local array, pops / appends / indexes it and yields one of the observed elements."""
